@@ -138,6 +138,26 @@ def run_runner(case):
     ns['DOIT_CONFIG'] = {'dep_file': os.path.join(work, 'db.json'), 'backend': 'json', 'reporter': Recorder,
                          'verbosity': case.get('v', 0), 'continue': True}
     argv = ['run']
+    json_path = None
+    if case.get('reporter') == 'json':
+        # doit's own JSON reporter: it swaps sys.stdout/sys.stderr for the whole run and must give them back,
+        # also when the run is aborted mid-task or the report cannot be written
+        ns['DOIT_CONFIG']['reporter'] = 'json'
+        abort = case.get('abort')
+        if abort == 'devfull' and not os.path.exists('/dev/full'):
+            abort = 'kwargs'
+        json_path = '/dev/full' if abort == 'devfull' else os.path.join(work, 'report.json')
+        argv += ['-o', json_path]
+        if abort == 'kwargs':
+            def rejected(targets=None):
+                return True
+            ns['task_zabort'] = lambda: {'actions': [rejected]}
+        elif abort == 'interrupt':
+            def interrupted():
+                raise KeyboardInterrupt()
+            ns['task_zabort'] = lambda: {'actions': [interrupted]}
+        elif abort == 'devfull':
+            ns['task_zabort'] = lambda: {'actions': [lambda: print('x' * 200000)]}
     if case['par'] != 'serial':
         argv += ['-n', str(case.get('n', 2)), '-P', case['par']]
     code = None
@@ -150,9 +170,35 @@ def run_runner(case):
         except BaseException as ex:  # noqa
             raised = '%s: %s' % (type(ex).__name__, str(ex)[:200])
         ident = sw.identity()
+    doc = None
+    if json_path and json_path != '/dev/full' and os.path.exists(json_path):
+        import json as _json
+        try:
+            with open(json_path) as f:
+                doc = _json.load(f)
+        except ValueError:
+            doc = None
     import shutil
     shutil.rmtree(work, ignore_errors=True)
     outs, errs, order, reported = {}, {}, [], {}
+    if doc is not None:
+        # per task the reporter concatenates the captured text of its actions; tokens carry the action id
+        for tr in doc.get('tasks', []):
+            if not tr['name'].startswith('t') or not tr['name'][1:].isdigit():
+                continue
+            ti = int(tr['name'][1:])
+            if tr.get('result') in ('success', 'fail'):
+                order.append(ti)
+                reported[str(ti)] = 'success' if tr['result'] == 'success' else 'failure'
+                to, te = actlib.toks(tr.get('out') or '', 'o'), actlib.toks(tr.get('err') or '', 'e')
+                for ai in ran_actions(case, ti):
+                    a = ids[(ti, ai)]
+                    outs[str(a)] = [t for t in to if t[0] == a]
+                    errs[str(a)] = [t for t in te if t[0] == a]
+                foreign = [t for t in to + te if t[0] not in [ids[(ti, ai)] for ai in range(len(case['tasks'][ti]['actions']))]]
+                if foreign:
+                    outs['foreign:%d' % ti] = foreign
+        order.sort()
     for rec in Recorder.log:
         if rec[0] == 'execute':
             order.append(int(rec[1][1:]))
@@ -164,6 +210,10 @@ def run_runner(case):
                 a = ids[(ti, ai)]
                 outs[str(a)] = actlib.toks(o[ai] if ai < len(o) else None, 'o')
                 errs[str(a)] = actlib.toks(e[ai] if ai < len(e) else None, 'e')
+    if case.get('reporter') == 'json':
+        return {'code': code, 'raised': raised, 'restored': ident, 'order': order, 'reported': reported,
+                'out': outs, 'err': errs, 'O': actlib.toks(sw.O.getvalue(), 'o'), 'E': actlib.toks(sw.E.getvalue(), 'e'),
+                'problems': problems, 'runtime_errors': [], 'json_document': doc is not None}
     return {'code': code, 'raised': raised, 'restored': ident, 'order': order, 'reported': reported,
             'out': outs, 'err': errs, 'O': actlib.toks(sw.O.getvalue(), 'o'), 'E': actlib.toks(sw.E.getvalue(), 'e'),
             'problems': problems,
